@@ -137,7 +137,7 @@ def run_harnesses(harnesses, timeout_s=600, jobs=8, extra_args=()):
     return res, dict(cmd=shown, wall=wall, solver_s=solver_s)
 
 
-def classify(result, prop, allow=()):
+def classify(result, prop, allow=(), loop_contract=None):
     """-> (violations, undecided, ignored) lists of failed checks for property `prop`.
     A tagged harness assertion ("C06: ...") counts only for the properties named in its tag;
     untagged failures (overflow, bounds, unwrap panics, unsafe preconditions) count for the
@@ -148,7 +148,12 @@ def classify(result, prop, allow=()):
         if IGNORED_CHECKS.search(d) or any(re.search(a, d) for a in allow):
             ign.append(fc)
         elif UNDECIDED_CHECKS.search(d):
-            und.append(fc)
+            # termination contract (registry: loop_contract): a loop of the code under contract that exceeds the
+            # stated bound is a violation of the named properties; everywhere else an unwinding failure is undecided
+            if loop_contract and prop in loop_contract[0] and "/src/" in fc.get("file", "") and "/verif/" not in fc.get("file", ""):
+                viol.append(dict(fc, desc=f"loop exceeds the termination contract ({loop_contract[1]}): {d}"))
+            else:
+                und.append(fc)
         else:
             m = TAG.match(d)
             if m and prop not in m.group(1).split("/"):
@@ -211,10 +216,13 @@ fn main() {{
     inp = os.path.join(REPLAY_DIR, "target", f"inputs-{os.getpid()}.txt")
     os.makedirs(os.path.dirname(inp), exist_ok=True)
     open(inp, "w").write("\n".join(",".join(str(b) for b in v) for v in inputs) + "\n")
-    rc, out, err, wall = run(["cargo", "run", "--quiet", "--", inp], cwd=REPLAY_DIR, timeout=timeout_s, env=_env())
+    run(["cargo", "build", "--quiet"], cwd=REPLAY_DIR, timeout=timeout_s, env=_env())
+    rc, out, err, wall = run(["cargo", "run", "--quiet", "--", inp], cwd=REPLAY_DIR, timeout=min(timeout_s, 180), env=_env())
     m = re.search(r"REPLAY-RESULT: (.*)", out)
     if m:
         verdict = m.group(1)
+    elif rc == -9:
+        verdict = f"reproduced hang: the native run of the harness body on these inputs did not return within {min(timeout_s, 180)} s (killed)"
     elif rc not in (0, 101):
         why = [l for l in err.splitlines() if "unsafe precondition" in l or "panicked at" in l or "non-unwinding" in l]
         verdict = f"reproduced abort (rc={rc}): " + " | ".join(why[-3:])[:400]
